@@ -201,16 +201,16 @@ type execErr struct {
 }
 
 type execCtx struct {
-	schema  *ast.Schema
-	data    *dataGraph
-	vars    map[string]interface{}
-	fed     *federation
-	svc     *serviceSpec // nil: monolith
-	errs    []execErr
-	budget  *int      // remaining object visits (nil = unlimited); the run is abandoned when it reaches zero
-	effects *[]string // mutation side effects
+	schema     *ast.Schema
+	data       *dataGraph
+	vars       map[string]interface{}
+	fed        *federation
+	svc        *serviceSpec // nil: monolith
+	errs       []execErr
+	budget     *int      // remaining object visits (nil = unlimited); the run is abandoned when it reaches zero
+	effects    *[]string // mutation side effects
 	inMutation bool
-	failSvc map[string]bool // monolith only: every field owned by these services raises an error
+	failSvc    map[string]bool // monolith only: every field owned by these services raises an error
 }
 
 type collected struct {
